@@ -15,10 +15,11 @@ CONSTANTS
   L,          \* maximal number of lines
   D,          \* maximal nesting depth
   E,          \* maximal number of elements
-  Kinds,      \* set of <<status, unwrap>> allowed, status \in {"R","P","S","SP","SF","U","T","F"} (S: skip on a ready marker, SP / SF: skip on a pending marker / time limit)
+  Kinds,      \* set of <<status, unwrap>> allowed, status \in {"R","P","S","SP","SF","U","T","F"} (S: skip on a ready marker, SP / SF: skip on a pending marker / time limit, NV / NN: marker with a valueless / without a name)
   Unit,       \* indentation unit (sequence of characters)
   Base,       \* indentation (in units) of depth 0
   FreeInd,    \* set of indentations (in units) a code line / tag line may choose in addition to Base + depth
+  FreeCode,   \* FALSE: code lines stand at Base + depth, only lines with tags choose from FreeInd
   FreeTags,   \* FALSE: only code lines choose from FreeInd, lines with tags stand at Base + depth
   WsLens,     \* set of lengths of whitespace-only lines (in characters, taken cyclically from Unit); {} = none
   Blank,      \* TRUE: empty lines allowed
@@ -35,6 +36,8 @@ CONSTANTS
   Preamble,   \* number of filler code lines "p<i>;" in front of the generated document (pushes line numbers up)
   InlineTags, \* TRUE: an opening tag may follow code on its line ("c1; <tag>") and code may follow a closing tag
               \*       ("</tag>d  1;"): elements whose tags share lines with code
+  Crossing,   \* TRUE: the element below the innermost open one may be closed first ("<a> <b> </a> </b>": b's opening tag
+              \*       becomes plain text, its closing tag a stray one)
   TailKinds,  \* kinds of the elements lying wholly on one line (tail / lead elements and tag-line neighbours)
   TailElems,  \* TRUE: lines "c<n>; <tag>t<n></tag>" and "<tag>t<n></tag> c<n>;" may be added: an element wholly on one
               \*       line, behind or in front of code
@@ -58,8 +61,9 @@ Init == lines = <<>> /\ stack = <<>> /\ nel = 0
 
 Inds == {Base + Len(stack)} \cup FreeInd
 TInds == IF FreeTags THEN Inds ELSE {Base + Len(stack)}
+CInds == IF FreeCode THEN Inds ELSE {Base + Len(stack)}
 
-AddCode  == \E i \in Inds : lines' = Append(lines, [k |-> "code", ind |-> i, n |-> Len(lines) + 1, kind |-> <<>>])
+AddCode  == \E i \in CInds : lines' = Append(lines, [k |-> "code", ind |-> i, n |-> Len(lines) + 1, kind |-> <<>>])
                            /\ UNCHANGED <<stack, nel>>
 AddPair  == PairLines /\ \E i \in TInds : lines' = Append(lines, [k |-> "pair", ind |-> i, n |-> Len(lines) + 1, kind |-> <<>>])
                            /\ UNCHANGED <<stack, nel>>
@@ -100,12 +104,17 @@ Close    == /\ stack # <<>>
             /\ stack' = SubSeq(stack, 1, Len(stack) - 1)
             /\ UNCHANGED nel
 
+CrossClose == /\ Crossing /\ Len(stack) >= 2
+              /\ lines' = Append(lines, [k |-> "close", ind |-> stack[Len(stack) - 1][2], n |-> 0, kind |-> stack[Len(stack) - 1][1]])
+              /\ stack' = SubSeq(stack, 1, Len(stack) - 2) \o <<stack[Len(stack)]>>
+              /\ UNCHANGED nel
+
 CodeCount == Cardinality({i \in 1..Len(lines) : lines[i].k = "code"})
 InDefault == stack # <<>> /\ ~stack[Len(stack)][1][2]
 
 Next == /\ Len(lines) < L
         /\ IF EmptyDefault /\ InDefault THEN Close
-           ELSE (CodeCount < MaxCode /\ AddCode) \/ AddPair \/ AddBlank \/ AddWs \/ Open \/ Close \/ OpenInl \/ CloseInl \/ AddTail \/ OpenWithTail \/ CloseWithLead
+           ELSE (CodeCount < MaxCode /\ AddCode) \/ AddPair \/ AddBlank \/ AddWs \/ Open \/ Close \/ OpenInl \/ CloseInl \/ AddTail \/ OpenWithTail \/ CloseWithLead \/ CrossClose
 
 \* a document can only be completed if the open elements can still be closed
 Feasible == Len(lines) + Len(stack) <= L
@@ -119,12 +128,14 @@ Str(s) == s
 TKinds == {"T1", "T2", "T3", "T4"}
 MKinds == {"M1", "M2", "M3", "M4"}
 KIdx(k) == IF k \in {"T1", "M1"} THEN 1 ELSE IF k \in {"T2", "M2"} THEN 2 ELSE IF k \in {"T3", "M3"} THEN 3 ELSE 4
-TagName(kd) == IF kd[1] \in {"R", "P", "S", "SP"} \cup MKinds THEN RM ELSE IF kd[1] \in {"T", "F", "SF"} \cup TKinds THEN TL ELSE <<120, 120>>   \* xx
+TagName(kd) == IF kd[1] \in {"R", "P", "S", "SP", "NV", "NN"} \cup MKinds THEN RM ELSE IF kd[1] \in {"T", "F", "SF"} \cup TKinds THEN TL ELSE <<120, 120>>   \* xx
 FlagAttrs(kd) ==
      (IF kd[1] \in {"S", "SP", "SF"} THEN <<32, 115, 107, 105, 112>> \o FlagVal ELSE <<>>)
   \o (IF kd[2] THEN <<32, 117, 110, 119, 114, 97, 112, 45, 98, 108, 111, 99, 107>> \o FlagVal ELSE <<>>)
 CondAttr(kd) ==
-         IF kd[1] \in {"R", "S", "U"} THEN <<32, 110, 97, 109, 101, 61>> \o Q \o <<97>> \o Q                 \* name='a'
+         IF kd[1] = "NV" THEN <<32, 110, 97, 109, 101>>                                                        \* bare name
+         ELSE IF kd[1] = "NN" THEN <<>>                                                                        \* no name at all
+         ELSE IF kd[1] \in {"R", "S", "U"} THEN <<32, 110, 97, 109, 101, 61>> \o Q \o <<97>> \o Q                 \* name='a'
          ELSE IF kd[1] \in {"P", "SP"} THEN <<32, 110, 97, 109, 101, 61>> \o Q \o <<98>> \o Q             \* name='b'
          ELSE IF kd[1] = "T" THEN <<32, 116, 111, 61>> \o Q \o PastTo \o Q
          ELSE IF kd[1] \in TKinds THEN <<32, 116, 111, 61>> \o Q \o Tos[KIdx(kd[1])] \o Q
